@@ -988,3 +988,100 @@ pub fn ty_features(ty: &Ty, env: &Env, depth: u32, out: &mut BTreeSet<&'static s
         _ => (),
     }
 }
+
+// ------------------------------------------------------------------------------------------
+// leaf coercion
+// ------------------------------------------------------------------------------------------
+
+/// A value of the same shape as `v` that is a member of `ty` and whose number/string leaves come
+/// from the universally safe pool (integers 1..=127, one ASCII letter). Used to turn mutated real
+/// samples into witnesses that respect the leaf restriction of C02. `None`: `v` does not fit.
+pub fn coerce_leaves(v: &Value, ty: &Ty, env: &Env) -> Option<Value> {
+    coerce_fuel(v, ty, env, DEFAULT_FUEL)
+}
+
+fn coerce_fuel(v: &Value, ty: &Ty, env: &Env, fuel: u32) -> Option<Value> {
+    if fuel == 0 {
+        return None;
+    }
+    match ty {
+        Ty::Number | Ty::BigInt => {
+            if !v.is_number() {
+                return None;
+            }
+            match v.as_u64() {
+                Some(n) if (1..=127).contains(&n) => Some(v.clone()),
+                _ => Some(Value::from(1)),
+            }
+        }
+        Ty::String => {
+            let s = v.as_str()?;
+            let mut cs = s.chars();
+            match (cs.next(), cs.next()) {
+                (Some(c), None) if c.is_ascii_alphabetic() => Some(v.clone()),
+                _ => Some(Value::from("a")),
+            }
+        }
+        Ty::Any | Ty::Unknown => Some(v.clone()),
+        Ty::Array(t) => {
+            let a = v.as_array()?;
+            Some(Value::Array(a.iter().map(|x| coerce_fuel(x, t, env, fuel - 1)).collect::<Option<Vec<_>>>()?))
+        }
+        Ty::Tuple(ts) => {
+            let a = v.as_array()?;
+            if a.len() != ts.len() {
+                return None;
+            }
+            Some(Value::Array(a.iter().zip(ts).map(|(x, t)| coerce_fuel(x, t, env, fuel - 1)).collect::<Option<Vec<_>>>()?))
+        }
+        Ty::Union(ts) => ts.iter().find_map(|t| coerce_fuel(v, t, env, fuel - 1)),
+        Ty::Ref(n, args) => coerce_fuel(v, &unfold(n, args, env)?, env, fuel - 1),
+        Ty::Obj(_) | Ty::Inter(_) => {
+            let Value::Object(obj) = v else {
+                return if member_fuel(v, ty, env, fuel - 1) { Some(v.clone()) } else { None };
+            };
+            'alts: for a in alts(ty, env, fuel - 1) {
+                let Alt::Shape(s) = a else { continue };
+                let mut out = serde_json::Map::new();
+                for (k, x) in obj {
+                    if let Some((tys, _)) = s.props.get(k) {
+                        match coerce_fuel(x, &tys[0], env, fuel - 1) {
+                            Some(c) if tys.iter().all(|t| member_fuel(&c, t, env, fuel - 1)) => {
+                                out.insert(k.clone(), c);
+                            }
+                            _ => continue 'alts,
+                        }
+                        continue;
+                    }
+                    let mut done = false;
+                    for (kt, vt, _) in &s.index {
+                        if key_member(k, kt, env, fuel - 1) {
+                            match coerce_fuel(x, vt, env, fuel - 1) {
+                                Some(c) => {
+                                    out.insert(k.clone(), c);
+                                    done = true;
+                                    break;
+                                }
+                                None => continue 'alts,
+                            }
+                        }
+                    }
+                    if !done {
+                        continue 'alts;
+                    }
+                }
+                if shape_member(&out, &s, env, fuel - 1) {
+                    return Some(Value::Object(out));
+                }
+            }
+            None
+        }
+        _ => {
+            if member_fuel(v, ty, env, fuel - 1) {
+                Some(v.clone())
+            } else {
+                None
+            }
+        }
+    }
+}
